@@ -262,6 +262,13 @@ impl Prop for C05 {
             timeout: Duration::from_secs(1200),
             what: format!("all strings of <= {} fragments over the alphabet extended by one representative per standard-library character class ({} fragments)", sww.max_len, sww.alphabet.len()),
         });
+        stages.push(Stage {
+            name: "schedules".into(),
+            len: super::c13::accept_workloads().len() as u64,
+            chunk: 1,
+            timeout: Duration::from_secs(900),
+            what: "malformed programs that are malformed only because a word is an operator, parsed while another thread re-registers that word with the role it already has, under the controlled scheduler: all schedules with <= 2 (3) preemptions; every parse must be rejected (accepted) as in every sequential order".into(),
+        });
         Plan {
             stages,
             rule: "token sequences, fragment strings and single-edit corruptions of valid programs, each judged by the reference recogniser (lenient as the property is: optional ';', one trailing comma in list/map); \
@@ -303,6 +310,14 @@ impl Prop for C05 {
             }
             out.count("states", b - a);
             out.count("transitions", b - a);
+            return;
+        }
+        if stage == sq.len() + 4 {
+            let ws = super::c13::accept_workloads();
+            for i in a..b {
+                out.at(i);
+                super::c13::check_workload(&ws[i as usize], tier.pick(2, 3), Duration::from_secs(tier.pick(60, 600)), out);
+            }
             return;
         }
         if stage == sq.len() {
@@ -367,6 +382,9 @@ impl Prop for C05 {
         }
         if stage == sq.len() + 3 {
             return show(&sweep_wide(tier).get(i));
+        }
+        if stage == sq.len() + 4 {
+            return super::c13::accept_workloads()[i as usize].name.to_string();
         }
         show(&corruption_programs(tier)[i as usize])
     }
